@@ -1,3 +1,3 @@
 #!/bin/sh
 # replays this counterexample against the real build
-cd /tmp/seedonly_C19d_10294 && VERIF_SCRIPT=/verif/replays/C19/VHarnessRestoreContinue_caaa0c15_0/script.json VERIF_RAW_SALT=0 GOFLAGS=-mod=mod GOPROXY=off go test -vet=off -count=1 -overlay /verif/replays/C19/VHarnessRestoreContinue_caaa0c15_0/overlay.json -run ^TestVerifReplay_VHarnessRestoreContinue$ -v ./wallet
+cd /tmp/seedrepo_C19d && VERIF_SCRIPT=/verif/replays/C19/VHarnessRestoreContinue_caaa0c15_0/script.json VERIF_RAW_SALT=0 GOFLAGS=-mod=mod GOPROXY=off go test -vet=off -count=1 -overlay /verif/replays/C19/VHarnessRestoreContinue_caaa0c15_0/overlay.json -run ^TestVerifReplay_VHarnessRestoreContinue$ -v ./wallet
